@@ -166,7 +166,10 @@ def _resolve_module_name(ref: str, module: str | None) -> str | None:
     # Harder path, find the actual object in the stack frame, if possible.
     obj = frames.extract(ref)
     module = getattr(obj, "__module__", None)
-    if module:
+    # (An object reports the module it was made in, which need not bind this name to it:
+    #   `Tree = Union[List["Tree"], int]` reports `typing`, `from decimal import Decimal as Dec`
+    #   reports `decimal`.)
+    if module and getattr(sys.modules.get(module), ref, None) is obj:
         return module
     # Tricky path, get the caller and get the module name of the caller.
     caller = frames.getcaller()
